@@ -17,3 +17,31 @@ Definition run_months2days (y m k : Z) :=
    (* days between the 1st of the start month and the 1st of the target month, astronomical year y *)
    let tm := (m - 1 + k) mod 12 + 1 in let ty := y + (m - 1 + k) / 12 in
    [ (days_before_year ty + dbm_spec (isleap ty) (Z.to_nat tm)) - (days_before_year y + dbm_spec (isleap y) (Z.to_nat m)) ]).
+
+(* ---- values with timezones (Zoned.v): a value is (year, month, day, time of day in microseconds, timezone) ---- *)
+From EP Require Import C11.Zoned.
+Definition zv := (Z * Z * Z * Z * option Z)%type.
+Definition zoned_of (v : zv) : zoned := let '(y, m, d, tod, t) := v in {| local := to_micros y m d tod; tz := t |}.
+Definition ccode (c : comparison) : Z := match c with Lt => -1 | Eq => 0 | Gt => 1 end.
+Definition otz (t : option Z) : Z := match t with Some z => z | None => 9999 end.
+(* [comparison by the code; by the instants; difference by the code; by the instants] *)
+Definition run_zcmp (ctx : option Z) (a b : zv) : list Z :=
+  [ccode (cmp_impl ctx (zoned_of a) (zoned_of b)); ccode (cmp_spec (imp_of ctx) (zoned_of a) (zoned_of b));
+   sub_impl ctx (zoned_of a) (zoned_of b); sub_spec (imp_of ctx) (zoned_of a) (zoned_of b)].
+(* kind 0 dateTime, 1 date, 2 time: the fields of the adjusted value and its timezone *)
+Definition run_zadjust (kind : Z) (a : zv) (target : option Z) : list Z :=
+  let v := zoned_of a in
+  let r := if kind =? 0 then adjust v target else if kind =? 1 then adjust_date v target
+           else adjust_time {| local := (local v) mod US_PER_DAY; tz := tz v |} target in
+  (if kind =? 2 then [0; 0; 0; local r] else t4 (from_micros (local r))) ++ [otz (tz r)].
+(* position (from 0) of the first item with the extreme instant *)
+Fixpoint zindex (x : zoned) (l : list zoned) (i : Z) : Z :=
+  match l with
+  | [] => -1
+  | y :: r => if (local x =? local y) && (otz (tz x) =? otz (tz y)) then i else zindex x r (i + 1)
+  end.
+Definition run_zextreme (mx : bool) (ctx : option Z) (l : list zv) : Z :=
+  match map zoned_of l with
+  | [] => -1
+  | b :: r => zindex (extreme mx (imp_of ctx) b r) (b :: r) 0
+  end.
